@@ -219,6 +219,7 @@ def summarise(ctx, b, flavour):
                         infeasible = True
                 else:
                     extra.append(("cmp", "Ne" if failed else "Eq", ("mem", k.place(cas[2])), k.t(exp)))
+                    extra.append(("cmp", "Ne" if failed else "Eq", k.t(exp), ("mem", k.place(cas[2]))))
                 continue
             if f[0] == "cmp" and f[1] == "Eq" and any(tag(x) == "named" and x[1] == "REMOVED_SEGMENT_NODE" for x in (f[2], f[3])):
                 infeasible = True
@@ -294,7 +295,8 @@ def summarise(ctx, b, flavour):
             g2 = guards
             if not ((tag(exp) == "load" and exp[2] == e["target"]) or tag(exp) in ("phi", "payload", "field", "downcast", "payloads")):
                 # a conditional store: it happens exactly when the word equals the expected value
-                g2 = tuple(sorted(set(guards + (repr(("cmp", "Eq", ("mem", k.place(e["target"])), k.t(exp))),))))
+                m_ = ("mem", k.place(e["target"]))
+                g2 = tuple(sorted(set(guards + (repr(("cmp", "Eq", m_, k.t(exp))), repr(("cmp", "Eq", k.t(exp), m_))))))
             emit_write(items, k.place(e["target"]), k.t(e["new"]), g2)
         elif kind == "call" and e.get("atomic") in ("fetch_add", "fetch_sub"):
             if "refs" in show(e["target"]):
